@@ -74,9 +74,9 @@ def apply_mutator(obj, mut, arg, objs_for_arg=None):
         elif mut == "at":
             obj.at = obj.at
         elif mut == "dist_node":
-            obj.dist_node = None
+            obj.dist_node = arg if arg is not None and not isinstance(arg, (dict, bool)) else None
         elif mut == "value_node":
-            obj.value_node = 7
+            obj.value_node = arg if arg is not None and not isinstance(arg, (dict, bool)) else 7
         elif mut == "transform":
             obj.transform(None)
         else:
@@ -94,6 +94,7 @@ class Run:
         self.reg = kit.Registry()
         self.objs = kit.construct(prog, self.reg)
         self.results = {}
+        self.builders = {}
         self.steps = []
         self.snaps = [self.reg.snapshot()]
 
@@ -136,6 +137,13 @@ class Run:
         def compare(tag):
             sn = reg.snapshot()
             want = kit.evaluate(reg, sn, ids)
+            iset = set(ids)
+            for i in ids:
+                for j in sn["nodes"][i]["ins"]:
+                    if j in iset and i not in sn["nodes"][j]["outs"]:
+                        bad.append(f"{tag}: {sn['nodes'][i]['name']!r} reads {sn['nodes'][j]['name']!r} but is not among its outputs")
+                if not sn["nodes"][i]["inmodel"]:
+                    bad.append(f"{tag}: node {sn['nodes'][i]['name']!r} no longer refers to its model")
             for i in ids:
                 n = reg.nodes[i]
                 if isinstance(n, L.TransientNode):
@@ -163,21 +171,33 @@ class Run:
         kind = op["op"]
         live_before = {mi: kit.model_summary(m) for mi, m in enumerate(reg.models) if len(m.nodes)}
         if kind == "build":
-            roots = self.resolve_roots(op["roots"])
+            reuse = op.get("reuse")
+            if reuse is not None:
+                gb, roots = self.builders[reuse]
+            else:
+                roots = self.resolve_roots(op["roots"])
+                gb = None
+            # the roots the USER added (for a reused builder: what was added to it originally)
             rec["rn"] = [reg.nid(x) for x in roots if isinstance(x, L.Node)]
             rec["rv"] = [reg.vid(x) for x in roots if isinstance(x, L.Var)]
             pre_vals = {i: n["value"] for i, n in enumerate(self.snaps[pre]["nodes"])}
             kit.LOG.clear()
             try:
-                if op.get("via") == "model":
+                if op.get("via") == "model" and reuse is None:
                     model = L.Model(roots, copy=bool(op.get("copy")), to_float32=False)
                 else:
-                    gb = L.GraphBuilder(to_float32=False)
-                    if op.get("via") == "groups":
-                        gb.add_groups(*[self.objs[g] for g in op["groups"]])
-                    gb.add(*roots)
-                    model = gb.build_model(copy=bool(op.get("copy")))
-                    rec["gb_left"] = [len(gb.nodes), len(gb.vars)]
+                    if gb is None:
+                        gb = L.GraphBuilder(to_float32=False)
+                        if op.get("via") == "groups":
+                            gb.add_groups(*[self.objs[g] for g in op["groups"]])
+                        gb.add(*roots)
+                        self.builders[k] = (gb, roots)
+                    rec["gb_before"] = [[reg.nid(x) for x in gb.nodes], [reg.vid(x) for x in gb.vars]]
+                    try:
+                        model = gb.build_model(copy=bool(op.get("copy")))
+                    finally:
+                        rec["gb_after"] = [[reg.nid(x) for x in gb.nodes], [reg.vid(x) for x in gb.vars]]
+                        rec["gb_after_names"] = [x.name for x in gb.nodes]
                 rec["ok"] = True
             except Exception as ex:  # noqa
                 rec["ok"] = False
@@ -243,10 +263,16 @@ class Run:
             rec["tid"] = reg.vid(obj) if isvar else reg.nid(obj)
             rec["isvar"] = isvar
             arg = op.get("arg")
+            rec["arg_frozen"] = False
             if op["mut"] in ("set_inputs", "add_inputs"):
-                arg = {"pos": [self.objs[r] for r in arg["pos"]], "kw": [(kw, self.objs[r]) for kw, r in arg["kw"]]}
+                arg = {"pos": [self.target(r) for r in arg["pos"]], "kw": [(kw, self.target(r)) for kw, r in arg["kw"]]}
                 rec["arg_ids"] = {"pos": [reg.reg(x) if not isinstance(x, L.Var) else reg.nid(x.var_value_node) for x in arg["pos"]],
                                   "kw": [[kw, reg.reg(x) if not isinstance(x, L.Var) else reg.nid(x.var_value_node)] for kw, x in arg["kw"]]}
+                rec["arg_in_model"] = any(x.model is not None for x in arg["pos"] + [x for _, x in arg["kw"]])
+            elif op["mut"] in ("value_node", "dist_node") and isinstance(arg, dict) and "ref" in arg:
+                arg = self.target(arg["ref"])
+                rec["arg_id"] = reg.nid(arg)
+                rec["arg_frozen"] = arg.model is not None
             rec["frozen_target"] = obj.model is not None
             ex = apply_mutator(obj, op["mut"], arg)
             rec["ok"] = ex is None
